@@ -1276,7 +1276,42 @@ fn gen_composite(s: &mut Session) {
     );
 }
 
+/// nonnegative / zero cones only, entries of magnitude 1e15..1e18: the shift must still end
+/// with every entry at least `target` (the code shifts in two stages because 1 − α = −α for
+/// such α).  Second-order blocks are left out: their margin s₀ − ‖s₁‖ itself is only known to
+/// an ulp of the data there.
+fn gen_extreme_shift(s: &mut Session) {
+    let ncones = 1 + s.rng.below(3);
+    let mut kinds = vec![];
+    let mut dims = vec![];
+    let mut len = 0;
+    for _ in 0..ncones {
+        let k = *s.rng.choose(&[1usize, 1, 0]);
+        let n = 1 + s.rng.below(4);
+        kinds.push(k);
+        dims.push(n);
+        len += n;
+    }
+    if !kinds.contains(&1) {
+        kinds.push(1);
+        dims.push(2);
+        len += 2;
+    }
+    let m = 10f64.powf(s.rng.uniform(15.0, 18.0));
+    let allneg = s.rng.bool(0.6);
+    let z: Vec<f64> = (0..len).map(|_| {
+        let v = (s.rng.uniform(0.1, 9.0)) * m;
+        if allneg || s.rng.bool(0.7) { -v } else { v * 1e-17 }
+    }).collect();
+    let primal = s.rng.bool(0.5);
+    s.count("composite:extreme-shift");
+    s.submit(Line::new("composite.shift_to_cone_interior").us("kinds", &kinds).us("dims", &dims).fs("z", &z).b("primal", primal).done());
+}
+
 fn gen_composite_shift(s: &mut Session) {
+    if s.rng.bool(0.08) {
+        gen_extreme_shift(s);
+    }
     let ncones = 1 + s.rng.below(5);
     let with_psd = s.rng.bool(0.3);
     let mut kinds = vec![];
